@@ -105,6 +105,9 @@ pub fn generic_session(
             rep.fail("oracle", e, vec![op_line_call(c)], vec![o.line(false)], vec![]);
         }
     }
+    if rep.property == "C01" {
+        spec_wf_pass(ctx, rep, &cases, &impl_out, "");
+    }
     // The property quantifies over every entry point INCLUDING the `_with` forms on objects that
     // were used before: run the same cases again in chunks that share one LinkageState/Dendrogram
     // per float width and apply the oracle to those results as well.
@@ -132,6 +135,11 @@ pub fn generic_session(
             return;
         }
     };
+    if rep.property == "C01" {
+        let flat_c: Vec<Case> = chunks.iter().flat_map(|c| c.iter().cloned()).collect();
+        let flat_o: Vec<Outcome> = reused.iter().flat_map(|o| o.iter().cloned()).collect();
+        spec_wf_pass(ctx, rep, &flat_c, &flat_o, "on a reused LinkageState/Dendrogram: ");
+    }
     for (chunk, outs) in chunks.iter().zip(&reused) {
         for (k, (c, o)) in chunk.iter().zip(outs).enumerate() {
             rep.count("reused_state_calls");
@@ -145,6 +153,45 @@ pub fn generic_session(
                     vec![],
                 );
             }
+        }
+    }
+}
+
+/// The predicate of the C01 THEOREMS (`Spec.WellFormed`, through its proved-equivalent executable form
+/// `Spec.wellFormedB`) evaluated by the Lean driver on the step lists the REAL crate returned.
+pub fn spec_wf_pass(ctx: &Ctx, rep: &mut Report, cases: &[Case], outs: &[Outcome], what: &str) {
+    if ctx.driver == "none" {
+        return;
+    }
+    let mut idx = vec![];
+    let mut lines = vec![];
+    for (i, (c, o)) in cases.iter().zip(outs).enumerate() {
+        if c.n < 2 {
+            continue;
+        }
+        if let Some(steps) = o.steps() {
+            let body = if steps.is_empty() { "-".to_string() } else { steps.iter().map(|s| format!("{},{},{}", s.c1, s.c2, s.size)).collect::<Vec<_>>().join(";") };
+            lines.push(format!("spec wf {} {}", c.n, body));
+            idx.push(i);
+        }
+    }
+    let res = match crate::core::run_driver_par(&ctx.driver, &lines, ctx.threads) {
+        Ok(v) => v,
+        Err(e) => {
+            rep.fail("model", format!("driver error (spec wf): {}", e), vec![], vec![], vec![]);
+            return;
+        }
+    };
+    for ((&i, line), r) in idx.iter().zip(&lines).zip(&res) {
+        rep.count("lean_spec_wellformed_evaluated_on_impl_output");
+        if r != "ok true" {
+            rep.fail(
+                "oracle",
+                format!("{}Lean Spec.WellFormed (the predicate of the C01 theorems, evaluated by the driver) is FALSE on the step list the implementation returned: {}", what, r),
+                vec![op_line_call(&cases[i]), line.clone()],
+                vec![outs[i].line(false)],
+                vec![r.clone()],
+            );
         }
     }
 }
@@ -552,6 +599,7 @@ pub fn c07(ctx: &Ctx, rep: &mut Report) {
         rep.seen(&format!("{} {} w{} n={} probe", c.alg.name(), method_name(c.method), if c.w32 { 32 } else { 64 }, c.n), c.n >= 3);
         tally(rep, c, o);
     }
+    spec_pair_pass(ctx, rep, &cases, &meta);
     // correspondence on a subsample of the large ones (all of the small ones)
     let idx: Vec<usize> = (0..cases.len()).filter(|&i| cases[i].n <= 40 || (i % 5 == 0 && cases[i].n <= 3000)).collect();
     let sub: Vec<Case> = idx.iter().map(|&i| cases[i].clone()).collect();
@@ -587,6 +635,44 @@ pub fn c07(ctx: &Ctx, rep: &mut Report) {
         })();
         if let Err(e) = r {
             rep.fail("oracle", e, vec![op_line_call(c)], vec![o.line(false)], vec![]);
+        }
+    }
+}
+
+
+/// The oracle's slot -> pair map against the SPECIFICATION of C07 (`Spec.pairs n`, the row-major
+/// enumeration by two nested ranges that `C07_layout` is stated against), evaluated by the Lean driver.
+fn spec_pair_pass(ctx: &Ctx, rep: &mut Report, cases: &[Case], meta: &[(usize, usize)]) {
+    if ctx.driver == "none" {
+        return;
+    }
+    let mut seen = std::collections::HashSet::new();
+    let mut want = vec![];
+    let mut lines = vec![];
+    for (c, &(k, k2)) in cases.iter().zip(meta) {
+        if c.n > 400 {
+            continue;
+        }
+        for kk in [k, k2] {
+            if kk < gen::tri(c.n) && seen.insert((c.n, kk)) {
+                let (i, j) = pair_of_slot(c.n, kk);
+                lines.push(format!("spec pair {} {}", c.n, kk));
+                want.push(format!("ok {} {}", i, j));
+            }
+        }
+    }
+    let res = match crate::core::run_driver_par(&ctx.driver, &lines, ctx.threads) {
+        Ok(v) => v,
+        Err(e) => {
+            rep.fail("model", format!("driver error (spec pair): {}", e), vec![], vec![], vec![]);
+            return;
+        }
+    };
+    for ((l, w), r) in lines.iter().zip(&want).zip(&res) {
+        rep.count("lean_spec_pairs_evaluated");
+        if w != r {
+            rep.fail("model", "the oracle's slot->pair map disagrees with Spec.pairs (the specification C07_layout is stated against)".into(), vec![l.clone()], vec![w.clone()], vec![r.clone()]);
+            return;
         }
     }
 }
